@@ -48,6 +48,14 @@ CHECKS = {
         'note': TB + 'Normalised-mantissa representation (top bit set) is assumed by the order abstraction and is itself checked structurally (D4). Not decided: exactness of the 64-bit arithmetic values, 1e-12 accuracy, float round-trip, exact_phase_and_sqrt2_pow.',
         'technique': 'finite-abstraction evaluation of the comparison, flag-taint dataflow on all paths, pairing rule, cast rule over call-graph closure, table extraction by partial evaluation',
     },
+    'C08': {
+        'text': 'Static: the 21 arms of Circuit::to_tensor are extracted as operation sequences and reduced to semantic descriptors (Hadamard set, diagonal '
+                'phase, conjugation check, H, swap, panic) which must equal the reference gate semantics; only ZPhase/XPhase read the gate phase; unsupported '
+                'kinds fail loudly; gates are visited in reverse over all gates; the decision structure of scalar_eq (dims, first non-zero of EACH tensor, zero '
+                'cases, cross-multiplication with the other tensor\'s entry), compare and scalar_compare; the From<Phase> exactness guard and unit table.',
+        'note': TB + 'Reference gate semantics in refs/gates.py. Not decided: the graph evaluator (contraction order, index positions), entry values, float type.',
+        'technique': 'dispatch-table extraction with semantic descriptors, decision-structure rule, table extraction by partial evaluation',
+    },
     'C10': {
         'text': 'Static: phase/vars co-transfer at every site where a vertex\'s phase flows into another vertex\'s phase (symbolic effect summaries, also through '
                 'loop accumulators); vars-consistency of the scalar effects of pi-copy, local comp, pivot, remove single, remove pair: with parities present the '
